@@ -130,20 +130,22 @@ static void ref_line(struct refline *r, unsigned char hi, unsigned char lo, unsi
   r->indent_out = indent;
 }
 
+/* integer code of a string handed to fputs(): its offset in the generated pool when it is a
+   table string, else a content code for the two literals of handle_pdp_quit */
+static unsigned vf_token_code(const char *s)
+{
+  if (__VF_SAME_OBJECT(s, genpool)) return (unsigned)(s - genpool);
+#if SPEC_HAS_PDP
+  if (s[0] == 'Q' && s[1] == 'U' && s[2] == 'I' && s[3] == 'T' && s[4] == 0) return SP_QUIT;
+  if (s[0] == 'L' && s[1] == 'O' && s[2] == 'A' && s[3] == 'D' && s[4] == 0) return SP_LOAD;
+#endif
+  return 0xFFFF;
+}
+
 /* compare actual event i of the log with expected event i */
 static int ev_equal(const struct refline *r, unsigned i)
 {
-  unsigned char ek = r->evk[i]; unsigned ev = r->evv[i];
-  if (LOGK[i] != ek) return 0;
-  if (ek == EV_TOKEN) {
-#if SPEC_HAS_PDP
-    if (ev == SP_QUIT) return vf_streq(LOGP[i], "QUIT");
-    if (ev == SP_LOAD) return vf_streq(LOGP[i], "LOAD");
-#endif
-    if (ev >= sizeof genpool) return 0;
-    return LOGP[i] == genpool + ev;     /* the very string the real table holds for this (map, byte) */
-  }
-  return LOGV[i] == ev;
+  return LOGK[i] == r->evk[i] && LOGV[i] == r->evv[i];
 }
 
 #endif
